@@ -1,0 +1,101 @@
+//go:build verif
+// +build verif
+
+package leanhelix
+
+import (
+	"context"
+
+	"github.com/orbs-network/lean-helix-go/services/interfaces"
+	L "github.com/orbs-network/lean-helix-go/services/logger"
+	"github.com/orbs-network/lean-helix-go/services/termincommittee"
+	"github.com/orbs-network/lean-helix-go/spec/types/go/primitives"
+	"github.com/orbs-network/lean-helix-go/state"
+)
+
+// Verification hooks (build tag "verif"): a synchronous, single-goroutine drive of the real WorkerLoop for the
+// /verif correspondence harness. Each method performs what MainLoop.run does for that kind of event (context
+// bookkeeping, filtering) and then what WorkerLoop.Run does when it receives the forwarded event.
+
+type VerifNode struct {
+	worker               *WorkerLoop
+	st                   *state.State
+	maxBlockHeightBySync *primitives.BlockHeight
+}
+
+func VerifNewNode(config *interfaces.Config, onCommit interfaces.OnCommitCallback, onNewRound interfaces.OnNewConsensusRoundCallback) *VerifNode {
+	st := state.NewState()
+	logger := L.NewLhLogger(config, st)
+	w := NewWorkerLoop(st, config, logger, config.OverrideElectionTrigger, onCommit, onNewRound)
+	return &VerifNode{worker: w, st: st}
+}
+
+func (n *VerifNode) State() *state.State { return n.st }
+
+// Term returns the current TermInCommittee, or nil when there is no term or the node is out of committee.
+func (n *VerifNode) Term() *termincommittee.TermInCommittee {
+	if n.worker.leanHelixTerm == nil {
+		return nil
+	}
+	return n.worker.leanHelixTerm.VerifTermInCommittee()
+}
+
+func (n *VerifNode) HasTerm() bool { return n.worker.leanHelixTerm != nil }
+
+// Deliver: main loop (parse, forward), then worker (parse, filter).
+func (n *VerifNode) Deliver(message *interfaces.ConsensusRawMessage) {
+	n.st.GcOldContexts()
+	parsedMessage := interfaces.ToConsensusMessage(message)
+	_ = parsedMessage.MessageType()
+	parsedMessage = interfaces.ToConsensusMessage(message)
+	_ = parsedMessage.MessageType()
+	n.worker.filter.HandleConsensusRawMessage(message)
+}
+
+// Election: main loop's handling of a trigger for (h, v), then the worker's.
+func (n *VerifNode) Election(h primitives.BlockHeight, v primitives.View, moveToNextLeader func()) {
+	n.st.GcOldContexts()
+	targetHv := state.NewHeightView(h, v+1)
+	n.st.Contexts.CancelOlderThan(targetHv)
+	if _, err := n.st.Contexts.For(targetHv); err != nil {
+		return
+	}
+	current := n.st.HeightView()
+	if current.Height() != h || current.View() != v {
+		return
+	}
+	if moveToNextLeader != nil {
+		moveToNextLeader()
+	}
+}
+
+// Sync: main loop's handling of UpdateState(block, proof), then the worker's.
+func (n *VerifNode) Sync(block interfaces.Block, prevBlockProofBytes []byte) {
+	n.st.GcOldContexts()
+	var receivedBlockHeight primitives.BlockHeight
+	if block != nil {
+		receivedBlockHeight = block.Height()
+	}
+	if n.maxBlockHeightBySync != nil && *n.maxBlockHeightBySync >= receivedBlockHeight {
+		return
+	}
+	hv := state.NewHeightView(receivedBlockHeight+1, 0)
+	n.st.Contexts.CancelOlderThan(hv)
+	if _, err := n.st.Contexts.For(hv); err != nil {
+		return
+	}
+	if n.maxBlockHeightBySync == nil {
+		n.maxBlockHeightBySync = new(primitives.BlockHeight)
+	}
+	*n.maxBlockHeightBySync = receivedBlockHeight
+	n.worker.handleUpdateState(&blockWithProof{block: block, prevBlockProofBytes: prevBlockProofBytes})
+}
+
+func (n *VerifNode) ValidateBlockConsensus(ctx context.Context, block interfaces.Block, blockProofBytes []byte, prevBlock interfaces.Block, prevBlockProofBytes []byte, softVerify bool) error {
+	return n.worker.ValidateBlockConsensus(ctx, block, blockProofBytes, prevBlock, prevBlockProofBytes, softVerify)
+}
+
+// Dispose: what the worker does on shutdown.
+func (n *VerifNode) Dispose() {
+	n.worker.cleanupCurrentTerm()
+}
